@@ -54,8 +54,22 @@ C[K + "__sub.<locals>.subtract_ranges"] = dict(
 KC = "pregex.core.classes."
 C[K + "__extract_classes"] = dict(params={"pattern": "text", "unescape": "bool"}, requires="unescape", raises={},
                                   returns="extract_classes", assumed=True)
-C[K + "__modify_classes"] = dict(params={"classes": "text", "escape": "bool"}, requires="escape", raises={},
+C[K + "__modify_classes"] = dict(params={"classes": "text", "escape": "bool"}, raises={},
                                  returns="modify_classes", assumed=True)
 C[KC + "AnyWordChar._is_global"] = dict(inline=True)
 C[KC + "AnyButWordChar._is_global"] = dict(inline=True)
 CLS_KINDS = ["classobj:Class", "classobj:Token", "classobj:Any", "classobj:Word", "classobj:ButWord"]
+
+# __chars_to_ranges(ranges, chars): adjacent characters are merged into runs (work list of one- / two-character strings),
+# runs of more than two characters become ranges; together ranges and characters denote what they denoted before
+INV_CR_OUTER = ("0 <= i and i <= LEN(chars) and WFRUN(chars) and VEQ(RUNV(chars), EV(ARGS['chars']))")
+INV_CR_INNER = ("RSAME(chars, ENTRY['chars']) and i == ENTRY['i']")
+INV_CR_FINAL = ("WFR(ranges_set) and WFC(chars_set) and "
+                "VEQ(VU(RV(ranges_set), CV(chars_set)), VU(RV(ranges), PREFIXRUNV(chars, K)))")
+C[K + "__chars_to_ranges"] = dict(
+    params={"ranges": "absranges", "chars": "abschars"}, raises={},
+    ensures="VEQ(VU(EV(result[0]), EV(result[1])), VU(EV(ranges), EV(chars)))",
+    loops={1: {"inv": INV_CR_OUTER, "kinds": {"chars": "run"}},
+           2: {"inv": INV_CR_INNER, "kinds": {"chars": "run"}},
+           3: {"inv": INV_CR_FINAL, "kinds": {"ranges_set": "rangestr", "chars_set": "char"}}},
+    enumerate_sets="runs", lists="concrete", frame=[])
